@@ -27,6 +27,8 @@ HANDLERS = dict(pkg="./server", test="TestVerifHandlersNil", name="handlers", di
 FINDMISSING = dict(pkg="./cache/disk", test="TestVerifFindMissing", name="findmissing", diff=True)
 FAILFAST = dict(pkg="./cache/disk", test="TestVerifFailFastRace", name="failfast", diff=False)
 
+CONFIG = dict(pkg="./config", test="TestVerifConfig", name="config", diff=True)
+
 COMMON_TB = [
     "goroutine scheduling, sync.Mutex and the file system are modelled (atomic lock regions, process-visible file state), not verified",
 ]
@@ -86,7 +88,7 @@ PROPS = {
         level_text="Theorems on M8: a hit implies every referenced blob (tree blobs, tree root/child files, non-inlined output files, stdout, stderr) is present; absence yields a miss, never an error or partial result; all present yields a hit. Server-level oracle over every subset of absent blobs; the decision compared with the model.",
         level_note=NOTE + "the fail-fast presence check is C10's model; recency refresh of dependencies is checked at the disk level.", technique=TECH),
     "C11": dict(
-        lean="BR.Props.C11", runs=[SRVAC], trusted_base=["protobuf / protojson codecs (round-trip law assumed, real ones exercised by the harness)"], assumptions=[],
+        lean="BR.Props.C11", runs=[SRVAC, SRVACDEPS], trusted_base=["protobuf / protojson codecs (round-trip law assumed, real ones exercised by the harness)"], assumptions=[],
         level_text="Theorems on M8's validator: each invalid class is rejected wherever it occurs, acceptance iff every component is well formed; validator compared with validate.ActionResult on generated messages; server oracle: rejected => nothing served, accepted => served equal modulo worker name, JSON = proto, latest wins.",
         level_note=NOTE + "the validator's verdicts are compared message by message.", technique=TECH),
     "C14": dict(
@@ -106,6 +108,10 @@ PROPS = {
         lean="BR.Props.C10", runs=[FINDMISSING, FAILFAST], trusted_base=COMMON_TB, assumptions=[],
         level_text="Theorems on M7 for every batch size and list length: the answer is the request filtered by 'absent locally (or other size) and not vouched for by the back end (or too large for it)', in order with duplicates; present-throughout never reported, absent-throughout reported, empty blob never missing, worker write order irrelevant, fail-fast miss iff something is missing. The real FindMissingCasBlobs compared with the model on generated partitions with concurrent unrelated puts; the final select driven through its yield point.",
         level_note=NOTE + "the worker pool's scheduling is abstracted by the order-irrelevance theorem.", technique=TECH),
+    "C19": dict(
+        lean="BR.Props.C19", runs=[CONFIG], trusted_base=COMMON_TB + ["urfave/cli flag parsing, yaml.v3 decoding, net.SplitHostPort and url.Parse are modelled (typed values; address and scheme grammar re-implemented in Lean), not verified"], assumptions=["proxy URLs are drawn from a family on which url.Parse fails only for a missing scheme"],
+        level_text="Theorems on M12 whose field tables are computed from the regenerated flag table, flag wiring, yaml tags and defaults: for every comparable assignment of explicitly given settings the flag/environment front end and the YAML front end yield the identical configuration and verdict; each explicitly given wired setting arrives unchanged in its field on both paths; each invalid class of the property is refused for arbitrary values of all other settings. Generated assignments pushed through the real flag parser, the environment and NewFromYaml and compared with each other and with the model.",
+        level_note=NOTE + "third-party parsers are exercised by the correspondence run, not modelled byte by byte.", technique=TECH),
 }
 
 _root = os.path.dirname(os.path.dirname(os.path.abspath(__file__)))
